@@ -172,6 +172,10 @@ METHOD_WRITERS = [("save_to_fits", True), ("save_to_npy", True), ("save_to_txt",
 
 def check_writes(u, p, tag, rp):
     for e in p.st.events:
+        if e[0] == "delete":
+            # nothing that was there when the call began may be removed: the entry must be known absent in the initial file system
+            # (other actors only add files), i.e. it can only be a file this call created itself
+            u.oblige(p, f"write.no_delete_of_existing[{tag}]", z3.Select(z3.Const("FS0", FSM.FS_SORT), e[1]) == 0, {"deleted": e[1]}, rp)
         if e[0] == "write":
             _, path, before, mode, did = e
             # a create-or-truncate write is only safe on a path known to be absent at that point
@@ -334,10 +338,14 @@ def complete(u: Unit):
         body = loops[0].body
         is_append = lambda st_: (isinstance(st_, ast.Expr) and isinstance(st_.value, ast.Call) and isinstance(st_.value.func, ast.Attribute) and st_.value.func.attr == "append"
                                  and isinstance(st_.value.func.value, ast.Subscript))
-        m_idx = [i for i, st_ in enumerate(body) if isinstance(st_, ast.Match)]
+        m_idx = [i for i, st_ in enumerate(body) if any(isinstance(x, ast.Match) for x in ast.walk(st_))]      # the dispatch, possibly wrapped (try / with)
         a_idx = [i for i, st_ in enumerate(body) if is_append(st_)]
         no_skip = not any(isinstance(n, (ast.Continue, ast.Break)) for n in ast.walk(ast.Module(body=body, type_ignores=[])))
-        branches_ok = len(m_idx) == 1 and all(any(isinstance(x, (ast.Raise,)) or (isinstance(x, ast.Expr) and "write_to_" in ast.unparse(x)) for x in c.body) for c in body[m_idx[0]].cases)
+        match_nodes = [x for x in ast.walk(body[m_idx[0]]) if isinstance(x, ast.Match)] if len(m_idx) == 1 else []
+        branches_ok = len(match_nodes) == 1 and all(any(isinstance(x, (ast.Raise,)) or (isinstance(x, ast.Expr) and "write_to_" in ast.unparse(x)) for x in c.body) for c in match_nodes[0].cases)
+        # a wrapper around the dispatch must not swallow a failure of the writer (the name would be reported without a file)
+        swallow = [h for x in ast.walk(body[m_idx[0]]) if isinstance(x, ast.Try) for h in x.handlers if not (h.body and isinstance(h.body[-1], ast.Raise))] if len(m_idx) == 1 else []
+        branches_ok = branches_ok and not swallow
         ok = len(a_idx) == 1 and branches_ok and no_skip and a_idx[0] > m_idx[0]
         detail = f"unconditional append after the format dispatch: {len(a_idx) == 1 and bool(m_idx) and a_idx[0] > m_idx[0]}; every format branch writes or raises: {branches_ok}; no continue/break: {no_skip}"
     u.static("complete.one_entry_per_name", ok, fi.qualname, detail)
@@ -463,6 +471,55 @@ def save_unit(u: Unit):
                 rep_ok = got == want
             u.oblige(p, f"save.reported_once_per_name[{tag}]", bool(rep_ok), {}, SAVE_REPLAY)
         u.cover(f"save.cover[{tag}]", [1] * n_ret, lambda _: True)
+
+
+FAIL_REPLAY = lambda w: {"code": """
+import numpy as np, tempfile, pathlib, verif_probes as VP
+from pyxel.outputs.utils import save_to_files
+from pyxel.pipelines import DetectionPipeline, Processor
+VIOLATED, DETAIL = False, 'a failing request leaves every file that existed before untouched'
+det = VP.detector(rows=2, cols=3)
+det.pixel.array = np.full((2, 3), 5.0); det.image.array = np.full((2, 3), 7, dtype=np.uint16)
+proc = Processor(detector=det, pipeline=DetectionPipeline())
+for names, precious in ((['detector_image.fits', 'detector_image.png'], 'detector_image.png'), (['detector_pixel.npy', 'detector_pixel.dat'], 'detector_pixel.dat'),
+                        (['detector_image.txt'], 'detector_image.txt'), (['detector_image.fits'], 'detector_image.fits'), (['detector_pixel.npy'], 'detector_pixel.npy')):
+    folder = pathlib.Path(tempfile.mkdtemp())
+    (folder / precious).write_bytes(b'precious')
+    try:
+        save_to_files(folder=folder, processor=proc, filenames=[pathlib.Path(n) for n in names], header=None)
+    except Exception:
+        pass
+    if not (folder / precious).exists() or (folder / precious).read_bytes() != b'precious':
+        VIOLATED, DETAIL = True, f'request {names}: the file {precious} that existed before the call is ' + ('gone' if not (folder / precious).exists() else 'changed'); break
+""", "expect": "no file that existed before save_to_files is deleted, truncated or overwritten, whether the request succeeds or fails"}
+
+
+@unit("C19", "save.failure")
+def save_failure(u: Unit):
+    """save_to_files with the REAL low-level writers on the ghost file system, for requests that fail part-way (a format without a writer
+    after a supported one; a name whose file already exists): on every exit — normal or exceptional — each write went to a path known
+    absent, and no path of the initial file system was deleted."""
+    fi = u.fn(f"{OU}::save_to_files")
+    for names in (["detector_image_3.fits", "detector_image_3.png"], ["detector_pixel_3.npy", "detector_pixel_3.dat"], ["detector_image_3.txt"], ["detector_image_3.npy"], ["detector_image_3.fits"]):
+        cfg = mk_cfg()
+        boundary.install(cfg)
+        FSM.install(cfg)
+        cfg.lib_overrides[("np.array_of",)] = lambda ex, v, dtype, fr: ex.st.alloc(HArr((z3.Int("dr"), z3.Int("dc")), VDtype("float64"), lambda ix: VFloat(z3.RealVal(1))))
+        cfg.lib_overrides["numpy.dtypes.StringDType"] = lambda ex, f, args, kwargs, fr: VDtype("str")
+        cfg.lib_overrides["numpy.object_"] = lambda ex, f, args, kwargs, fr: VDtype("object")
+        base_attr = cfg.lib_overrides[("opaque_attr", "xr")]
+        cfg.lib_overrides[("opaque_attr", "xr")] = lambda ex, obj, name, fr, base_attr=base_attr: VOpaque("xr", ex.st.fresh_int("a"), {"label": "bucket._array", "truthy": True}) if name == "_array" else base_attr(ex, obj, name, fr)
+
+        def setup(ex, names=names):
+            proc = VOpaque("xr", ex.st.fresh_int("xr"), {"label": "processor", "truthy": True})
+            return [], {"folder": FSM.mk_path(ex, "/out/run_1"), "processor": proc, "filenames": ex.st.alloc(HList([FSM.mk_path(ex, n) for n in names])), "header": NONE}
+        tag = "+".join(n.replace("detector_", "") for n in names)
+        ps = u.paths(fi, setup, cfg, label=f"save_to_files[failing request {tag}]")
+        for p in ps:
+            check_writes(u, p, f"save_to_files {tag},{p.kind}", FAIL_REPLAY)
+        u.cover(f"save.failure.cover[{tag}]", ps, lambda p: True)
+        if any(n.rsplit(".", 1)[1] not in ("fits", "npy", "jpg", "jpeg") for n in names):
+            u.cover(f"save.failure.cover_raise[{tag}]", ps, lambda p: p.kind == "raise")
 
 
 # ---- Outputs.save_to_file: the per-run writer of the sequential observation path -----------------------------------------------------
